@@ -92,6 +92,13 @@ FsrFields ==
   \cup { FsrVec("FSR/tol/" \o ToString(t) \o "-" \o ToString(e) \o "-" \o ToString(d), "tolerance-accexp-direction", "C07", [B0 EXCEPT !.Tolerance = t, !.AccuracyExp = e, !.Direction = d])
            : t \in 0..63, e \in 0..3, d \in 0..3 }
 \* every ID-string encoding for every length from zero upward
+IdOf(enc, n) == [enc |-> enc, vals |-> [i \in 1..n |-> CASE enc = 1 -> (i * 3 + n) % 16 [] enc = 2 -> (i * 5 + n) % 64 [] OTHER -> 33 + ((i * 7 + n) % 90)]]
+\* reserved bits, one group at a time and all together, with ID strings of every encoding: the decoded record is unchanged
+FsrReserved(prop) ==
+  { FsrVec("FSR/res/" \o prop \o "/" \o ToString(rs) \o "/" \o ToString(e) \o "-" \o ToString(n), "reserved-bits", prop, [B0 EXCEPT !.res = rs, !.id = IdOf(e, n)])
+    : rs \in { [NoRes EXCEPT !.lun = 1], [NoRes EXCEPT !.lun = 2], [NoRes EXCEPT !.lin = 1], [NoRes EXCEPT !.flags = 1], [NoRes EXCEPT !.flags = 16],
+               [NoRes EXCEPT !.tl = 1], AllRes },
+      e \in 0..3, n \in {0, 2, 9, 31} }
 FsrIds ==
   { FsrVec("FSR/id/l1/" \o ToString(n), "id-latin1-len-" \o ToString(n), "C07", [B0 EXCEPT !.id = [enc |-> 3, vals |-> [i \in 1..n |-> 32 + ((i * 7 + n) % 95)]]]) : n \in {0} \cup (2..31) }
   \cup { FsrVec("FSR/id/uni/" \o ToString(n), "id-unicode-len-" \o ToString(n), "C07", [B0 EXCEPT !.id = [enc |-> 0, vals |-> [i \in 1..n |-> 32 + ((i * 11 + n) % 95)]]]) : n \in {0} \cup (2..31) }
@@ -100,7 +107,6 @@ FsrIds ==
   \cup { FsrVec("FSR/id/l1hi/" \o ToString(b), "id-latin1-high-bytes", "C20", [B0 EXCEPT !.id = [enc |-> 3, vals |-> <<65, b, 66>>]]) : b \in 128..255 }
 \* ID strings decoded into a record value that already held another ID string (every encoding to every encoding,
 \* longer to shorter, non-empty to empty): the characters must be those of the later record alone
-IdOf(enc, n) == [enc |-> enc, vals |-> [i \in 1..n |-> CASE enc = 1 -> (i * 3 + n) % 16 [] enc = 2 -> (i * 5 + n) % 64 [] OTHER -> 33 + ((i * 7 + n) % 90)]]
 FsrIdAfter ==
   { LET ra == [FsrBase(Seed + 2) EXCEPT !.id = IdOf(ea, na)]
         rb == [B0 EXCEPT !.id = IdOf(eb, nb)] IN
@@ -117,7 +123,7 @@ FsrShort == { [id |-> "FSR/short/" \o ToString(n), prop |-> "C07", kind |-> "dec
 Vectors == CASE Family = "prims" -> AnalogVecs \cup EntityVecs \cup BcdVecs \cup P6Vecs \cup L1Vecs \cup ShortStr \cup BcdByteVecs \cup RollVecs
              [] Family = "checksum" -> CksVecs
              [] Family = "fsrtwos" -> FsrTwos
-             [] Family = "fsr" -> FsrFields \cup FsrIds \cup FsrShort \cup FsrIdAfter
+             [] Family = "fsr" -> FsrFields \cup FsrIds \cup FsrShort \cup FsrIdAfter \cup FsrReserved("C07") \cup FsrReserved("C20")
 ASSUME \A v \in Vectors : PrintT(<<"SCRIPT", ToJson(v)>>)
 ASSUME PrintT(<<"COUNT", ToJson([n |-> Cardinality(Vectors)])>>)
 =============================================================================
